@@ -116,6 +116,16 @@ Theorem C14_compile_and_link_spec :
 Proof. exact @compile_and_link_spec. Qed.
 Print Assumptions C14_compile_and_link_spec.
 
+(* the link phase returns whenever the import relation between files is well founded and every import can be found
+   (more fuel than the rank; the Go code recurses along the same relation and reports a circular file import) *)
+Theorem C14_link_total :
+  forall (D L : Type) (lookup : bytes -> option D) (deps_of : D -> list bytes) (link1 : D -> list L -> L) (rank : bytes -> nat),
+    (forall n d, lookup n = Some d -> forall dep, In dep (deps_of d) -> lookup dep <> None /\ (rank dep < rank n)%nat) ->
+    forall fuel names c, (forall n, In n names -> lookup n <> None /\ (rank n < fuel)%nat) ->
+      exists c' ls, link_all lookup deps_of link1 fuel c names = Some (c', ls).
+Proof. exact @link_all_total. Qed.
+Print Assumptions C14_link_total.
+
 (* ---- the conversion stage is not an opaque parameter: the skeleton instantiated with cmpa's Gallina model of
    ConvertJ5File (model/J5sConvert.v cv_file over the AST of model/J5sAst.v, lib/Strcase.v for the names), which
    is a function of the file's AST and of the resolver the skeleton hands it (own exports + direct dependencies'
